@@ -8,9 +8,11 @@ import (
 	"errors"
 
 	"github.com/attestantio/go-eth2-client/api"
+	eth2apiv1 "github.com/attestantio/go-eth2-client/api/v1"
 	"github.com/attestantio/go-eth2-client/spec"
 	"github.com/attestantio/go-eth2-client/spec/altair"
 	"github.com/attestantio/go-eth2-client/spec/bellatrix"
+	"github.com/attestantio/go-eth2-client/spec/capella"
 	"github.com/attestantio/go-eth2-client/spec/phase0"
 	specqbft "github.com/bloxapp/ssv-spec/qbft"
 	spectypes "github.com/bloxapp/ssv-spec/types"
@@ -84,6 +86,16 @@ func (s *zzStore) CleanAllInstances(l *zap.Logger, id []byte) error { return nil
 type zzBN struct {
 	att     *phase0.AttestationData
 	submits []*phase0.Attestation
+	regs    []phase0.BLSSignature
+	exits   []*phase0.SignedVoluntaryExit
+	blk     *capella.BeaconBlock
+	randaos [][]byte // RANDAO reveals the beacon node was given
+	blocks  []zzBlockSubmit
+}
+
+type zzBlockSubmit struct {
+	blk *api.VersionedProposal
+	sig phase0.BLSSignature
 }
 
 func (b *zzBN) GetBeaconNetwork() spectypes.BeaconNetwork { return spectypes.PraterNetwork }
@@ -92,12 +104,19 @@ func (b *zzBN) GetAttestationData(slot phase0.Slot, ci phase0.CommitteeIndex) (s
 }
 func (b *zzBN) SubmitAttestation(a *phase0.Attestation) error { b.submits = append(b.submits, a); return nil }
 func (b *zzBN) GetBeaconBlock(slot phase0.Slot, g, r []byte) (ssz.Marshaler, spec.DataVersion, error) {
-	return nil, 0, nil
+	b.randaos = append(b.randaos, r)
+	if b.blk == nil {
+		return nil, 0, errors.New("zz: no block")
+	}
+	return b.blk, spec.DataVersionCapella, nil
 }
 func (b *zzBN) GetBlindedBeaconBlock(slot phase0.Slot, g, r []byte) (ssz.Marshaler, spec.DataVersion, error) {
 	return nil, 0, nil
 }
-func (b *zzBN) SubmitBeaconBlock(block *api.VersionedProposal, sig phase0.BLSSignature) error { return nil }
+func (b *zzBN) SubmitBeaconBlock(block *api.VersionedProposal, sig phase0.BLSSignature) error {
+	b.blocks = append(b.blocks, zzBlockSubmit{block, sig})
+	return nil
+}
 func (b *zzBN) SubmitBlindedBeaconBlock(block *api.VersionedBlindedProposal, sig phase0.BLSSignature) error {
 	return nil
 }
@@ -116,9 +135,13 @@ func (b *zzBN) GetSyncCommitteeContribution(slot phase0.Slot, sp []phase0.BLSSig
 }
 func (b *zzBN) SubmitSignedContributionAndProof(c *altair.SignedContributionAndProof) error { return nil }
 func (b *zzBN) SubmitValidatorRegistration(pk []byte, fr bellatrix.ExecutionAddress, sig phase0.BLSSignature) error {
+	b.regs = append(b.regs, sig)
 	return nil
 }
-func (b *zzBN) SubmitVoluntaryExit(v *phase0.SignedVoluntaryExit) error { return nil }
+func (b *zzBN) SubmitVoluntaryExit(v *phase0.SignedVoluntaryExit) error {
+	b.exits = append(b.exits, v)
+	return nil
+}
 func (b *zzBN) DomainData(epoch phase0.Epoch, domain phase0.DomainType) (phase0.Domain, error) {
 	var d phase0.Domain
 	copy(d[:4], domain[:])
@@ -146,6 +169,29 @@ func zzCDDecode(cd *spectypes.ConsensusData, data []byte) error {
 	}
 	*cd = *zzCDs[data[1]-1]
 	return nil
+}
+
+// beacon blocks: SSZ replaced by a token that names the object
+var zzBlks []*capella.BeaconBlock
+
+func zzBlkMarshal(b *capella.BeaconBlock) ([]byte, error) {
+	for i, x := range zzBlks {
+		if x == b {
+			return []byte{0xB0, byte(i + 1)}, nil
+		}
+	}
+	zzBlks = append(zzBlks, b)
+	return []byte{0xB0, byte(len(zzBlks))}, nil
+}
+func zzGetBlockData(cd *spectypes.ConsensusData) (*api.VersionedProposal, ssz.HashRoot, error) {
+	if len(cd.DataSSZ) != 2 || cd.DataSSZ[0] != 0xB0 || cd.DataSSZ[1] == 0 || int(cd.DataSSZ[1]) > len(zzBlks) {
+		return nil, nil, errors.New("zz: undecodable block")
+	}
+	b := zzBlks[cd.DataSSZ[1]-1]
+	return &api.VersionedProposal{Capella: b, Version: cd.Version}, b, nil
+}
+func zzGetBlindedBlockData(cd *spectypes.ConsensusData) (*api.VersionedBlindedProposal, ssz.HashRoot, error) {
+	return nil, nil, errors.New("zz: not a blinded block")
 }
 
 // attestation data: SSZ replaced by a token that names the object
@@ -183,6 +229,25 @@ func zzETHSigningRoot(obj ssz.HashRoot, domain phase0.Domain) ([32]byte, error) 
 			r[5] = byte(o.Target.Epoch)
 		}
 		r[6] = o.BeaconBlockRoot[0]
+	case *eth2apiv1.ValidatorRegistration:
+		r[0] = 0xB1
+		r[1] = o.FeeRecipient[0]
+		r[2], r[3], r[4], r[5] = byte(o.GasLimit), byte(o.GasLimit>>8), byte(o.GasLimit>>16), byte(o.GasLimit>>24)
+		r[6] = o.Pubkey[0]
+		ts := o.Timestamp.Unix()
+		r[7], r[8], r[9], r[10] = byte(ts), byte(ts>>8), byte(ts>>16), byte(ts>>24)
+	case *capella.BeaconBlock:
+		r[0] = 0xB0
+		r[1], r[2] = byte(o.Slot), byte(o.Slot>>8)
+		r[3] = byte(o.ProposerIndex)
+		r[4] = o.ParentRoot[0]
+	case spectypes.SSZUint64:
+		r[0] = 0xB3
+		r[1], r[2], r[3] = byte(o), byte(o>>8), byte(o>>16)
+	case *phase0.VoluntaryExit:
+		r[0] = 0xB2
+		r[1], r[2], r[3] = byte(o.Epoch), byte(o.Epoch>>8), byte(o.Epoch>>16)
+		r[4], r[5] = byte(o.ValidatorIndex), byte(o.ValidatorIndex>>8)
 	default:
 		r[0] = 0xEE
 	}
